@@ -1,1 +1,5 @@
-// hook body for teddy_builder (included into /repo under cfg(aho_corasick_verif))
+// Hook body included as `crate::packed::teddy::builder::verif`.
+use super::*;
+
+#[cfg(all(target_arch = "x86_64", target_feature = "sse2"))]
+pub use super::x86_64::verif as x86;
